@@ -3,6 +3,7 @@
 
 mod channel;
 mod halflock;
+mod iterator;
 mod registry;
 mod sched;
 mod trace;
@@ -81,6 +82,7 @@ fn main() {
         "halflock" => halflock::main(&args),
         "channel" => channel::main(&args),
         "registry" => registry::main(&args),
+        "iterator" => iterator::main(&args),
         other => {
             eprintln!("unknown component {}", other);
             2
